@@ -639,3 +639,78 @@ def replay_pipeline(run, behs):
             run.sample({"pipeline_run": behs[len(behs) // 2]})
     finally:
         subprocess.run(["rm", "-rf", base])
+
+
+# ---------------------------------------------------------------- ground truth for the generator: cmake --trace
+def cmake_trace_check(run, behs, seed, limit=300):
+    """Do CMake's own argument boundaries agree with the ones the generator (CMakeGen.tla) claims by construction?
+    Every command name is replaced by a no-op function and the files are run through `cmake --trace`; a disagreement
+    is a bug of the SPECIFICATION's reading of cmake-language(7) and is reported as drift, never as a violation."""
+    import subprocess
+    behs = [b for b in behs if b["fault"]["pos"] == 0 and "\r" not in b["text"]]
+    if len(behs) > limit:
+        behs = random.Random(seed).sample(behs, limit)
+    tmp = tempfile.mkdtemp(prefix="verif_cmtrace_")
+    try:
+        parts = ["function(vf)\nendfunction()\n"]
+        expected = []
+        for n, beh in enumerate(behs):
+            text, offs = concretize(beh["text"], seed * 1000003 + n)
+            cmds = []
+            for c in sorted(beh["cmds"], key=lambda c: -c["from"]):
+                s0, e0 = offs[c["from"] - 1], offs[c["from"] - 1 + len(c["name"])]
+                text = text[:s0] + "vf" + text[e0:]
+            text2, offs2 = concretize(beh["text"], seed * 1000003 + n)
+            for c in beh["cmds"]:
+                args = []
+                for a in c["args"]:
+                    t = text2[offs2[a["from"] - 1]:offs2[a["from"] - 1 + len(a["t"])]]
+                    if a["k"] in ("(", ")"):
+                        args.append(a["k"])
+                    elif t.startswith('"'):
+                        args.append(t[1:-1].replace("\\\n", ""))
+                    elif _re.match(r"^\[(=*)\[", t):
+                        m = _re.match(r"^\[(=*)\[", t)
+                        body = t[len(m.group(0)):-len(m.group(0))]
+                        args.append(body[1:] if body.startswith("\n") else body)
+                    else:
+                        args.append(t)
+                cmds.append(args)
+            expected.append(cmds)
+            parts.append("vf(__file_%d__)\n" % n + text + "\n")
+        script = os.path.join(tmp, "all.cmake")
+        with open(script, "w", encoding="utf-8", newline="") as fh:
+            fh.write("".join(parts))
+        out = os.path.join(tmp, "trace.json")
+        r = subprocess.run(["cmake", "--trace-format=json-v1", "--trace-redirect=" + out, "-P", script],
+                           stdout=subprocess.PIPE, stderr=subprocess.PIPE, timeout=600)
+        got = {}
+        cur = None
+        if os.path.exists(out):
+            for line in open(out, encoding="utf-8", errors="replace"):
+                try:
+                    e = json.loads(line)
+                except Exception:
+                    continue
+                if e.get("cmd") != "vf":
+                    continue
+                a = e.get("args", [])
+                m = _re.match(r"^__file_(\d+)__$", a[0]) if len(a) == 1 else None
+                if m:
+                    cur = int(m.group(1))
+                    got[cur] = []
+                elif cur is not None:
+                    got[cur].append(a)
+        st = run.notes.setdefault("cmake_trace_ground_truth", {"files": 0, "agree": 0, "disagree": 0, "cmake_failed": r.returncode != 0})
+        for n, cmds in enumerate(expected):
+            st["files"] += 1
+            if got.get(n) == cmds:
+                st["agree"] += 1
+            else:
+                st["disagree"] += 1
+                if st["disagree"] <= 3:
+                    run.drifted({"specification_vs_cmake": "argument boundaries claimed by CMakeGen differ from cmake --trace",
+                                 "generator": cmds, "cmake": got.get(n)})
+    finally:
+        import shutil
+        shutil.rmtree(tmp, ignore_errors=True)
